@@ -74,6 +74,9 @@ def plan_e2e(seed, tag, mix, total, shards=None, extra=None, timeout=None, nwcap
                       seed=[seed, tag, 9999], nwcap=nwcap))
     specs.append(dict(name="e2e-manyK11", mode="interp", what="e2e", mix={"large:manyK11": 1.0}, n=2 if total < 600 else 6,
                       seed=[seed, tag, 1111], nwcap=nwcap))       # more than ten clusters, whatever the random mix drew
+    for kind_ in ("verylong", "long", "bigNW"):
+        specs.append(dict(name="e2e-" + kind_, mode="interp", what="e2e", mix={"large:" + kind_: 1.0}, n=1 if total < 600 else 3,
+                          seed=[seed, tag, 2222], nwcap=nwcap))   # (sizes beyond the usual ones, whatever the random mix drew)
     # ... and of runs in which two clusters are refilled in one round from two different donors that the relabelling before left alone
     specs.append(dict(name="e2e-doublerepop", mode="interp", what="e2e", mix={"large:doublerepop": 1.0}, n=4 if total < 600 else 16,
                       seed=[seed, tag, 8888], nwcap=nwcap))
